@@ -378,6 +378,9 @@ func policyShape(p *spec.Policy, c *compiled, s *evalStats) {
 	if len(p.Groups) >= 4 {
 		s.class("groups>=4")
 	}
+	if len(p.Groups) >= 64 {
+		s.class("groups>=64")
+	}
 	if p.Default == oracle.Const("SECCOMP_RET_ERRNO") {
 		s.class("errno-default")
 	}
